@@ -260,7 +260,7 @@ func (s *Sim) restoredCheck() {
 					}
 				}
 				for gi, g := range gotIF {
-					if !used[gi] && !(relax && !g.rel && t.StaleDeferred[g.payload]) {
+					if !used[gi] && !(relax && !g.rel && (t.StaleDeferred[g.payload] || (t.Taint["deferred"] && t.EverOwed[g.payload]))) {
 						ok = false
 					}
 				}
